@@ -36,5 +36,41 @@ JOBS = {
 }
 
 
+def opts_extra(tier, seed):
+    """seeded raw option areas of 0..44 bytes over the control alphabet and random data, and random element lists"""
+    r = random.Random(seed * 17 + 13)
+    alpha = [0, 1, 2, 3, 4, 5, 8, 9, 10, 18, 26, 34, 35, 255]
+    out = []
+    n = 3000 if tier == 'quick' else 100000
+    for i in range(n):
+        if i % 3 == 2:
+            shapes = [[1, []], [2, [r.randrange(256), r.randrange(256)]], [3, [r.randrange(256)]], [4, []],
+                      [8, [r.randrange(256) for _ in range(8)]]] + [[5, [r.randrange(256) for _ in range(8 * k)]] for k in (1, 2, 3, 4)]
+            out.append({'kind': 'elems', 'bytes': [], 'elems': [r.choice(shapes) for _ in range(r.randrange(0, 9))]})
+        else:
+            ln = r.randrange(0, 45)
+            b = []
+            while len(b) < ln:
+                x = r.random()
+                if x < 0.5:
+                    b.append(r.choice(alpha))
+                elif x < 0.75:
+                    b.append(r.randrange(256))
+                else:      # a well formed option
+                    b.extend(r.choice([[1], [2, 4, 5, 6], [3, 3, 9], [4, 2], [8, 10] + [7] * 8, [5, 10] + [3] * 8, [5, 18] + [3] * 16]))
+            out.append({'kind': 'raw', 'bytes': b[:ln], 'elems': []})
+    return out
+
+
+JOBS['C13'] = Job('C13', mc='MC_TcpOpts', tag='OPTS', drive='opts-run', trace='Trace_TcpOpts',
+                  invariants=['RawProps', 'ElemProps', 'Emit'],
+                  consts_quick={'MaxTokens': 2, 'MaxElems': 3}, consts_thorough={'MaxTokens': 3, 'MaxElems': 4},
+                  extra=opts_extra,
+                  describe='one case = one raw option area (every truncation of token sequences + short control strings) iterated per next() call, '
+                           'or one element list encoded by try_from_elements / set_options and iterated; compared with spec/TcpOpts.tla',
+                  assumptions=['SACK elements are canonical (blocks occupy the first slots of the [Option;3] array)',
+                               'option payload bytes do not influence control flow; kind/length bytes are covered by the token alphabet'])
+
+
 def run(pid, tier, seed, replay=None):
     return run_job(JOBS[pid], pid, tier, seed, replay)
